@@ -52,6 +52,27 @@ def step (_ : Unit) (fields : List String) (impl : String) : Unit × Reply :=
                 decide (p ≤ ticks + 1) && decide (ticks ≤ p + 2 + ticks / 3)
       ((), ⟨"accepted-by-model=" ++ boolStr ok, ok, true, ok, "-"⟩)
     | _, _ => ((), .bad)
+  | ["cfginterval", _, ms] =>
+    -- the interval the client will use is the configured one (30 s where none was given), on every transport
+    match ms.toNat? with
+    | some ms =>
+      let want := "interval=" ++ toString (if ms == 0 then 30000 else ms)
+      ((), .det want impl true (impl == want))
+    | none => ((), .bad)
+  | ["liveserver", i, n] =>
+    -- sessions ended by the server: each has its keepalives, and each end is reported (the l-th Disconnected event
+    -- after the l-th life) - so that the session's keepalive stops
+    match i.toNat?, n.toNat? with
+    | some i, some n =>
+      let m := kvs impl
+      let ok := i > 0 && n > 0 && nat m "lives" == n &&
+        (List.range n).all fun k =>
+          (match (m.lookup ("p" ++ toString (k + 1))).bind String.toNat? with
+           | some p => decide (2 ≤ p) && decide (p ≤ nat m ("t" ++ toString (k + 1)) / i + 2)
+           | none => false) &&
+          nat m ("d" ++ toString (k + 1)) == k + 1
+      ((), ⟨"accepted-by-model=" ++ boolStr ok, ok, true, ok, "-"⟩)
+    | _, _ => ((), .bad)
   | ["lives", i, n] =>
     -- several sessions of ONE client (Connect, six keepalive periods, Disconnect, Connect again ...): every session
     -- has its keepalives - at least two after six periods, at most one per period of the time the session was up (+2)
